@@ -18,9 +18,9 @@ structure Mounted (pre post : List NodeId) (s : KState) : Prop where
 theorem foldl_erase_all (old : List Item) : (old.filter fun z => !old.contains z) = [] :=
   List.filter_eq_nil_iff.mpr (by intro a ha; simpa using ha)
 
-theorem rebuild_mounted (s : KState) (to : List Key) (pre post : List NodeId) (hs : Wf s)
-    (hm : Mounted pre post s) (hto : to.Nodup) (hsm : settledMonotone s.hashed to = true) :
-    Mounted pre post (rebuild s to) := by
+theorem rebuild_mounted (D : List Key → List Key → Diff) (hD : DiffLike D) (s : KState) (to : List Key) (pre post : List NodeId) (hs : Wf s)
+    (hm : Mounted pre post s) (hto : to.Nodup) (hsm : settledMonotone D s.hashed to = true) :
+    Mounted pre post (rebuildWith D s to) := by
   have hw : ({ s.w with log := {} } : World).storage = (somes s.w.storage).map some := hs.all_some
   have hk : s.w.kids = pre ++ blocks (somes s.w.storage) ++ s.marker :: post := hm.ordered
   have hkn : (pre ++ blocks (somes s.w.storage) ++ s.marker :: post).Nodup := hk ▸ hm.nodup
@@ -32,27 +32,22 @@ theorem rebuild_mounted (s : KState) (to : List Key) (pre post : List NodeId) (h
     · have ho : somes s.w.storage = [] := by
         have := hs.keys; rw [hfe] at this; simpa using this
       have hst : s.w.storage = [] := by rw [hs.all_some, ho]; rfl
-      have hd : diff s.hashed [] = {} := by simp [diff, hfe]
-      have : (rebuild s []).w = { s.w with log := {} } := by
-        simp only [rebuild, hd]
+      have hd : D s.hashed [] = {} := by rw [hfe]; exact hD.nil_nil
+      have : (rebuildWith D s []).w = { s.w with log := {} } := by
+        simp only [rebuildWith, hd]
         simp [applyDiff, unpackMoves, unpackLoop, hst]
       exact ⟨by rw [this]; exact hm.ordered, by rw [this]; exact hm.nodup,
         by rw [this]; exact hm.nonempty, by rw [this]; exact hm.fresh, hm.bs_pos⟩
-    · have hd : diff s.hashed [] = { clear := true } := by
-        have : s.hashed.isEmpty = false := by
-          cases h : s.hashed with
-          | nil => exact absurd h hfe
-          | cons _ _ => rfl
-        simp [diff, this]
-      have hwr : (rebuild s []).w = clearPhase { s.w with log := {} } := by
-        simp only [rebuild, hd]; simp [applyDiff]
+    · have hd : D s.hashed [] = { clear := true } := hD.to_nil _ hfe
+      have hwr : (rebuildWith D s []).w = clearPhase { s.w with log := {} } := by
+        simp only [rebuildWith, hd]; simp [applyDiff]
       have hcl := clearPhase_eq { s.w with log := {} } (somes s.w.storage) hw
-      have hkids : (rebuild s []).w.kids = pre ++ blocks [] ++ s.marker :: post := by
+      have hkids : (rebuildWith D s []).w.kids = pre ++ blocks [] ++ s.marker :: post := by
         rw [hwr, hcl]
         simp only
         rw [hk, unmount_fold_region pre post s.marker _ _ hkn hm.nonempty hold (fun x hx => hx),
           foldl_erase_all]
-      have hst : (rebuild s []).w.storage = [] := by rw [hwr, hcl]
+      have hst : (rebuildWith D s []).w.storage = [] := by rw [hwr, hcl]
       refine ⟨?_, ?_, ?_, ?_, hm.bs_pos⟩
       · rw [hkids, hst]; rfl
       · rw [hwr, hcl]; exact (unmount_fold_nodup _ hm.nodup).1
@@ -60,18 +55,18 @@ theorem rebuild_mounted (s : KState) (to : List Key) (pre post : List NodeId) (h
       · rw [hwr, hcl]
         intro n hn
         exact hm.fresh n ((unmount_fold_nodup _ hm.nodup).2 n hn)
-  · obtain ⟨rem, U, ads, c, hn, hU, heq⟩ := applyDiff_spec s.hashed to (somes s.w.storage) hs.nodup hto
+  · obtain ⟨rem, U, ads, c, hn, hU, heq⟩ := applyDiff_spec D hD s.hashed to (somes s.w.storage) hs.nodup hto
       hs.keys hte s.bs s.marker { s.w with log := {} } hw
-    have hwr : (rebuild s to).w = pipeline s.bs s.marker to rem U ads ads.length { s.w with log := {} } := heq
+    have hwr : (rebuildWith D s to).w = pipeline s.bs s.marker to rem U ads ads.length { s.w with log := {} } := heq
     obtain ⟨hord, hnd'⟩ := c.dom_order hn hU hsm s.bs s.marker { s.w with log := {} } pre post hw hk
       hm.nodup hm.nonempty hm.fresh hm.bs_pos
     have hcl := c.pipeline_closed hn s.bs s.marker { s.w with log := {} } hw
     obtain ⟨_, _, hat⟩ := c.final_storage s.bs s.w.next
-    have hst : (rebuild s to).w.storage = (storage7 (somes s.w.storage) rem U ads s.bs to s.w.next).filter Option.isSome := by
+    have hst : (rebuildWith D s to).w.storage = (storage7 (somes s.w.storage) rem U ads s.bs to s.w.next).filter Option.isSome := by
       rw [hwr, hcl]
-    have hnext : (rebuild s to).w.next = s.w.next + s.bs * ads.length := by rw [hwr, hcl]
+    have hnext : (rebuildWith D s to).w.next = s.w.next + s.bs * ads.length := by rw [hwr, hcl]
     -- every stored item is an old one or one built for an addition
-    have hitems : ∀ z ∈ somes (rebuild s to).w.storage,
+    have hitems : ∀ z ∈ somes (rebuildWith D s to).w.storage,
         z ∈ somes s.w.storage ∨ ∃ j, (j, z) ∈ addPlacements s.bs to s.w.next ads := by
       intro z hz
       rw [hst] at hz
@@ -88,7 +83,7 @@ theorem rebuild_mounted (s : KState) (to : List Key) (pre post : List NodeId) (h
       · obtain ⟨i, hi⟩ := List.mem_iff_getElem?.mp hkf
         exact Or.inl (List.mem_of_getElem? (hold' i hi))
       · exact Or.inr ⟨j, hnew' hkf⟩
-    have hnonempty : ∀ z ∈ somes (rebuild s to).w.storage, z.nodes ≠ [] := by
+    have hnonempty : ∀ z ∈ somes (rebuildWith D s to).w.storage, z.nodes ≠ [] := by
       intro z hz
       rcases hitems z hz with h | ⟨j, h⟩
       · exact hm.nonempty z h
@@ -96,8 +91,8 @@ theorem rebuild_mounted (s : KState) (to : List Key) (pre post : List NodeId) (h
     refine ⟨by rw [hwr]; exact hord, by rw [hwr]; exact hnd', hnonempty, ?_, hm.bs_pos⟩
     intro n hn'
     rw [hnext]
-    have hord' : (rebuild s to).w.kids
-        = pre ++ blocks (somes (rebuild s to).w.storage) ++ s.marker :: post := by rw [hwr]; exact hord
+    have hord' : (rebuildWith D s to).w.kids
+        = pre ++ blocks (somes (rebuildWith D s to).w.storage) ++ s.marker :: post := by rw [hwr]; exact hord
     rw [hord'] at hn'
     have hlt_old : ∀ n, n ∈ s.w.kids → n < s.w.next + s.bs * ads.length :=
       fun n h => Nat.lt_of_lt_of_le (hm.fresh n h) (Nat.le_add_right _ _)
@@ -148,9 +143,9 @@ theorem mem_unmount_fold : ∀ (R : List Item) {kids : List NodeId}, kids.Nodup 
     · exact h2 r hr
 
 /-- **the nodes of an item whose key vanished leave the parent** (whatever the final order is) -/
-theorem rebuild_removed_nodes_leave (s : KState) (to : List Key) (pre post : List NodeId) (hs : Wf s)
+theorem rebuild_removed_nodes_leave (D : List Key → List Key → Diff) (hD : DiffLike D) (s : KState) (to : List Key) (pre post : List NodeId) (hs : Wf s)
     (hm : Mounted pre post s) (hto : to.Nodup) :
-    ∀ r ∈ somes s.w.storage, r.key ∉ to → ∀ n ∈ r.nodes, n ∉ (rebuild s to).w.kids := by
+    ∀ r ∈ somes s.w.storage, r.key ∉ to → ∀ n ∈ r.nodes, n ∉ (rebuildWith D s to).w.kids := by
   intro r hr hrk n hn
   have hw : ({ s.w with log := {} } : World).storage = (somes s.w.storage).map some := hs.all_some
   have hk : s.w.kids = pre ++ blocks (somes s.w.storage) ++ s.marker :: post := hm.ordered
@@ -166,20 +161,15 @@ theorem rebuild_removed_nodes_leave (s : KState) (to : List Key) (pre post : Lis
       have := hs.keys; rw [h] at this
       have : somes s.w.storage = [] := by simpa using this
       rw [this] at hr; simp at hr
-    have hd : diff s.hashed [] = { clear := true } := by
-      have : s.hashed.isEmpty = false := by
-        cases h : s.hashed with
-        | nil => exact absurd h hfe
-        | cons _ _ => rfl
-      simp [diff, this]
-    have hwr : (rebuild s []).w = clearPhase { s.w with log := {} } := by
-      simp only [rebuild, hd]; simp [applyDiff]
+    have hd : D s.hashed [] = { clear := true } := hD.to_nil _ hfe
+    have hwr : (rebuildWith D s []).w = clearPhase { s.w with log := {} } := by
+      simp only [rebuildWith, hd]; simp [applyDiff]
     rw [hwr, clearPhase_eq { s.w with log := {} } (somes s.w.storage) hw]
     intro h
     exact (mem_unmount_fold _ hm.nodup h).2 r hr hn
-  · obtain ⟨rem, U, ads, c, hnm, _, heq⟩ := applyDiff_spec s.hashed to (somes s.w.storage) hs.nodup hto
+  · obtain ⟨rem, U, ads, c, hnm, _, heq⟩ := applyDiff_spec D hD s.hashed to (somes s.w.storage) hs.nodup hto
       hs.keys hte s.bs s.marker { s.w with log := {} } hw
-    have hwr : (rebuild s to).w = pipeline s.bs s.marker to rem U ads ads.length { s.w with log := {} } := heq
+    have hwr : (rebuildWith D s to).w = pipeline s.bs s.marker to rem U ads ads.length { s.w with log := {} } := heq
     rw [hwr, c.pipeline_closed hnm s.bs s.marker { s.w with log := {} } hw]
     simp only
     intro h
